@@ -245,6 +245,24 @@ theorem roundtrip_counterexample_single_field :
 theorem roundtrip_statement_false : ¬ roundtrip_statement := fun h =>
   roundtrip_counterexample_required_absent (h rho0 rho0_classes _)
 
+/-! ## `$ref` names -/
+
+/-- the class name emitted for the `$ref` of a definition is that definition's name — every name,
+    whatever its first characters (in particular the letters of "#/definitions/" itself) -/
+theorem refName_refOf (n : String) : refName (refOf n) = n := by
+  simp only [refName, refOf, String.toList_append, List.drop_left, String.ofList_toList]
+
+/-- hence schema → declaration → schema maps every `$ref` string to itself -/
+theorem ref_roundtrip (ρ : String → FieldDecl) (hρ : RefsAreClasses ρ) (n : String) :
+    toSchemaF (schemaToDecl ρ (.ref (refName (refOf n)))) = .ref n := by
+  rw [refName_refOf]
+  obtain ⟨c, fs, ds, h, hin, hn⟩ := hρ n
+  simp [schemaToDecl, h, toSchemaF, hin, hn]
+
+theorem refName_examples :
+    refName "#/definitions/item" = "item" ∧ refName "#/definitions/definitions" = "definitions"
+      ∧ refName "#/definitions/s_1" = "s_1" ∧ refName "#/definitions/Node" = "Node" := by decide
+
 /-! ## the caller's schema is not modified -/
 
 /-- `schema_to_struct_code` never writes to the caller's `required` list: every schema -/
